@@ -195,6 +195,11 @@ fn main() {
     match o.prop.as_str() {
         "C01" | "C02" | "C03" | "C04" => {
             run_cells_prop(&o, &mut rep);
+            if o.prop == "C03" || o.prop == "C04" {
+                // the long operator chains whose special operand is a None (C04) / any other operand (C03: type errors)
+                let cs: Vec<rs::RsCase> = streams::chain_cases().into_iter().filter(|c| c.tag.starts_with("chain")).collect();
+                run_rs_stream(&o, &mut rep, "long-chains", "left-nested chains of 10 / 33 / 40 / 70 / 150 operands for every binary operator with a None, an operand of another type, a zero or an extreme at the start, in the middle or at the end", false, cs, "full");
+            }
             if o.prop == "C04" {
                 let mut rng = rng::Rng::new(o.seed);
                 let cases = streams::deep_none_cases(&mut rng, if o.tier == "thorough" { 60000 } else { 6000 });
@@ -233,6 +238,8 @@ fn main() {
             serval::run_evaluate(&mut rep, &o.driver, o.workers, o.tier == "thorough", o.seed);
         }
         "C10" => {
+            let big: Vec<rs::RsCase> = streams::chain_cases().into_iter().filter(|c| c.tag.starts_with("list") || c.tag.starts_with("map") || c.tag.starts_with("path")).collect();
+            run_rs_stream(&o, &mut rep, "large-data", "lists and maps of 10 / 33 / 40 / 70 / 150 items built and indexed at the last and past-the-last position, key lookup in them, access paths of up to 60 alternating field / index steps into nested data and one step further", false, big, "full");
             let mut rng = rng::Rng::new(o.seed);
             let cases = streams::resolve_cases(&mut rng, o.tier == "thorough");
             run_rs_stream(&o, &mut rep, "paths", "6 inputs (nested maps/lists with near-miss keys: case variants, prefixes, the key `facts`, the empty key; non-map; None) x 11 bases (references, `facts`, symbols, unknown names) x every access path of length <= 2 (thorough 3) over 11 steps (present/absent keys, indices len-1/len/len+1, wrong step kind) x symbol tables with re-registration; random longer paths", false, cases, "full");
@@ -240,7 +247,7 @@ fn main() {
         "C11" => {
             let mut rng = rng::Rng::new(o.seed);
             let cases = streams::cache_cases(&mut rng, o.tier == "thorough");
-            run_rs_stream(&o, &mut rep, "cache-histories", "counting / wrapping / identity user functions, cacheable or not: every ordered pair of 18 equal-or-similar arguments (i1 \"1\" \"i1\" [i1] f1 d1 d1.0 d1.00 f0 f-0 none NaN …) over two rules and 3 consecutive evaluations; every subset of failing invocation indices (32) x 4 call sequences x 3 rule splits; random histories; compared on the invocation log and all outcomes", false, cases, "full");
+            run_rs_stream(&o, &mut rep, "cache-histories", "counting / wrapping / identity user functions, cacheable or not: every ordered pair of 18 equal-or-similar arguments (i1 \"1\" \"i1\" [i1] f1 d1 d1.0 d1.00 f0 f-0 none NaN …) over two rules and 3 consecutive evaluations; every subset of failing invocation indices (32) x 4 call sequences x 3 rule splits; 40 / 200 / 1000 distinct arguments each called twice in opposite orders (in one rule, and one call per rule over 400 rules), 300-element and 900-byte arguments differing only at the end; random histories; compared on the invocation log and all outcomes", false, cases, "full");
         }
         p => {
             eprintln!("unknown property {p}");
